@@ -27,7 +27,7 @@ def load_known(prop):
     return [e for e in data.get("findings", []) if e.get("property") == prop and e.get("status", "known") == "known"]
 
 
-def run_worker(mode, modname, cond, tier, excludes=(), args=None, timeout=None):
+def run_worker(mode, modname, cond, tier, excludes=(), args=None, timeout=None, extra_env=None):
     cmd = [PY, "-m", "vf.worker", mode, modname, cond]
     for e in excludes:
         cmd += ["--exclude", e]
@@ -37,6 +37,8 @@ def run_worker(mode, modname, cond, tier, excludes=(), args=None, timeout=None):
     env["VERIF_TIER"] = tier
     env["PYTHONPATH"] = vf.VERIF + os.pathsep + env.get("PYTHONPATH", "")
     env.setdefault("PYTHONHASHSEED", "0")
+    if extra_env:
+        env.update(extra_env)
     t0 = time.time()
     try:
         p = subprocess.run(cmd, cwd=vf.VERIF, env=env, capture_output=True, text=True, timeout=timeout)
@@ -178,7 +180,7 @@ def check_property(prop, tier, only=None, jobs=None, verbose=True):
             continue
         if getattr(mod, cname)._vf.kind != "crosshair" and not k.get("replayable", True):
             continue
-        rr = run_worker("replay", modname, cname, tier, (), w, timeout=600)
+        rr = run_worker("replay", modname, cname, tier, (), w, timeout=600, extra_env={"VF_NO_TOLERANCE": "1"})
         if rr.get("reproduced"):
             known_lines.append("KNOWN-FINDING: property=%s %s" % (prop, k.get("what")))
         elif rr.get("status") == "error":
